@@ -1,6 +1,6 @@
 (* C16 — packed length encoding and fixed-width integers are exact for every value.
    Statements only; proofs in SevenBit.v, BaseFacts.v, PrimFacts.v, ObjFacts.v. *)
-From Sbdf Require Import ImpCall Gen.Prog ImpFacts ImpFacts7 ImpFactsFrame.
+From Sbdf Require Import ImpCall Gen.Prog ImpBase ImpFacts7 ImpFacts7W ImpFactsInt32 ImpFactsInt32W.
 From Sbdf Require Import Prim BaseFacts PrimFacts SevenBit Obj ObjFacts LeafTie.
 From Coq Require Import List.
 From Sbdf.Gen Require Import Leaf.
